@@ -202,7 +202,9 @@ func c14Exec(c *Ctx, base string, n int, r *c14Run) {
 }
 
 // c14LibJob is the library run that corresponds to a binary run.
-func c14LibJob(r *c14Run, emptyAt int) Job {
+// With failAt > 0 that input is a reader whose first read fails (the library-level picture of
+// a file that opens but cannot be read); the reads are logged.
+func c14LibJob(r *c14Run, failAt int) Job {
 	j := Job{Kind: "run", Prog: []byte(r.Prog), Sels: r.Sels, WantJS: true, Budget: 5_000_000}
 	if r.Cfg.NFiles == 0 {
 		j.Files = []FileIn{{Name: "<stdin>", Data: []byte(r.T.I.Docs[r.Order[0]])}}
@@ -210,9 +212,10 @@ func c14LibJob(r *c14Run, emptyAt int) Job {
 	for i := 0; i < r.Cfg.NFiles; i++ {
 		data := []byte(r.T.I.Docs[r.Order[i]])
 		name := fmt.Sprintf("in%d.json", r.Order[i])
-		if emptyAt == i+1 {
-			data = []byte{}
-			name = "unreadable.d"
+		if failAt == i+1 {
+			j.IO = true
+			j.Files = append(j.Files, FileIn{Name: "unreadable.d", Fault: "ioerr"})
+			continue
 		}
 		j.Files = append(j.Files, FileIn{Name: name, Data: data})
 	}
@@ -238,7 +241,7 @@ func checkC14(c *Ctx) {
 	c.Assume("whether -o FILE exists, and what it holds, after a failed run is not compared; in half of the -o FILE runs the file exists beforehand with longer content")
 	c.Assume("stdin vs named file only for programs that do not print $file; -r E vs BEGINFILE { $ = E } only for one selector and programs that do not inspect $ in BEGINFILE/ENDFILE")
 	c.Assume("file / selector order: output blocks are compared for programs whose output for (A, B) is the output for A followed by that for B (no BEGIN/END, no state carried over), on runs that succeed; selector order on inputs with one value per file")
-	c.Assume("an unreadable input is a mode-000 file (inconclusive when running as root makes it readable) and a directory given as input file")
+	c.Assume("an unreadable input is a mode-000 file (inconclusive when running as root makes it readable) and a directory given as input file; the directory opens and fails on the first read, so it counts only if the run gets as far as reading it (oracle: the library with a reader failing at that position; an exit before that ends the run successfully)")
 	c.Assume("-dbg-ast, -dbg-lex, -profile, -version are not exercised; stdin is always a pipe")
 	pool := c.Pool()
 	rng := rand.New(rand.NewSource(c.Seed*104729 + 5))
@@ -440,10 +443,21 @@ func checkC14(c *Ctx) {
 		rows := table[c14Key(r.Cfg)]
 		var exp *c14Vec
 		var lib *Result
-		if r.Cfg.faulty() {
+		// A directory opens but cannot be read: the failure belongs to the evaluation and happens only
+		// if the run gets as far as reading that input (an earlier exit ends the run successfully).
+		// The oracle is the library with a reader that fails on its first read at that position.
+		dirRun := r.Dir && !r.Cfg.BadProg
+		if r.Cfg.faulty() && !dirRun {
 			exp = rows["na/na"]
 		} else {
-			lib = libOf(r, 0)
+			at := 0
+			if dirRun {
+				at = r.Cfg.BadAt
+				k2 := r.Cfg
+				k2.BadAt, k2.BadKind = 0, "none"
+				rows = table[c14Key(k2)]
+			}
+			lib = libOf(r, at)
 			row := libRow(lib)
 			if row == "" {
 				c.Count("inconclusive", 1) // the library itself crashed or ran out of budget: C01's business
@@ -452,22 +466,40 @@ func checkC14(c *Ctx) {
 			exp = rows[row]
 			c.Count("library_result_"+sanitize(row), 1)
 			rep["library"] = map[string]any{"class": lib.Class, "stdout": string(lib.Stdout), "json": string(lib.JS), "json_err": lib.JSErr, "error": lib.ErrMsg}
+			if dirRun {
+				readFailed := false
+				for _, e := range lib.Events {
+					if e.E == "ReadRet" && e.S == "ioerr" {
+						readFailed = true
+					}
+				}
+				rep["unreadable_input_was_read"] = readFailed
+				if readFailed {
+					c.Count("unreadable_input_read", 1)
+				} else {
+					c.Count("unreadable_input_never_reached", 1)
+				}
+				if readFailed && row != "err/na" {
+					// the library took the failed read for the end of the input: the statement wants non-zero + diagnostic
+					if r.Res.Exit == 0 {
+						if c.OpenDev("unreadable-dir-ignored") {
+							c.Known("unreadable-dir-ignored", "an input file that opens but cannot be read (a directory) is treated as an empty file: exit status 0, no diagnostic (cause: C03 more-swallows-error)")
+							c.Case(r.Key, true)
+						} else {
+							c.Violation("cli-status", rep)
+						}
+					} else {
+						c.Case(r.Key, true)
+					}
+					continue
+				}
+			}
 		}
 		if exp == nil {
 			infra("C14: no model row for %s", c14Key(r.Cfg))
 		}
 		rep["expected"] = exp
 		if exp.Status0 != (r.Res.Exit == 0) {
-			// an input that opens but cannot be read (a directory) is taken for an empty file
-			if r.Dir && r.Res.Exit == 0 && !r.Cfg.BadProg {
-				l2 := libOf(r, r.Cfg.BadAt)
-				same := l2 != nil && l2.Class == "ok" && bytes.HasPrefix(r.Res.Stdout, l2.Stdout)
-				if same && c.OpenDev("unreadable-dir-ignored") {
-					c.Known("unreadable-dir-ignored", "an input file that opens but cannot be read (a directory) is treated as an empty file: exit status 0, no diagnostic (cause: C03 more-swallows-error)")
-					c.Case(r.Key, true)
-					continue
-				}
-			}
 			c.Violation("cli-status", rep)
 			continue
 		}
